@@ -70,21 +70,39 @@ def rpowQ (x y : Rat) : Option Rat :=
   else if x == 0 then (if y == 0 then some 1 else if y > 0 then some 0 else none)
   else none
 
+/-- the driver's number type for the eight transcendental densities: `none` = outside the domain of a function /
+overflow, `some q` with `q` a dyadic rational carrying a 256-bit mantissa.  EVERY operation is rounded to 256
+bits (`rnd`): the values stay dyadic, so that sums over a thousand axis points do not accumulate a common
+denominator of tens of thousands of digits.  (The opaque functions are good to 40 digits; 256 bits = 77 digits.) -/
 abbrev XR := Option Rat
-instance : Add XR := ⟨fun a b => a.bind fun x => b.map fun y => x + y⟩
-instance : Sub XR := ⟨fun a b => a.bind fun x => b.map fun y => x - y⟩
-instance : Mul XR := ⟨fun a b => a.bind fun x => b.map fun y => x * y⟩
+
+/-- round towards −∞ to a 256-bit mantissa: `⌊q · 2^(256 − e)⌋ / 2^(256 − e)`, `e ≈ log₂ |q|` -/
+def rnd (q : Rat) : Rat :=
+  if q.num == 0 then 0
+  else
+    let e : Int := (Nat.log2 q.num.natAbs : Int) - (Nat.log2 q.den : Int)
+    let k : Int := 256 - e
+    if k ≥ 0 then
+      let p : Nat := 2 ^ k.toNat
+      ((q * (p : Rat)).floor : Rat) / (p : Rat)
+    else
+      let p : Nat := 2 ^ (-k).toNat
+      (((q / (p : Rat)).floor : Int) : Rat) * (p : Rat)
+
+instance : Add XR := ⟨fun a b => a.bind fun x => b.map fun y => rnd (x + y)⟩
+instance : Sub XR := ⟨fun a b => a.bind fun x => b.map fun y => rnd (x - y)⟩
+instance : Mul XR := ⟨fun a b => a.bind fun x => b.map fun y => rnd (x * y)⟩
 instance : Neg XR := ⟨fun a => a.map fun x => -x⟩
 instance : Zero XR := ⟨some 0⟩
-instance : Div XR := ⟨fun a b => a.bind fun x => b.bind fun y => if y == 0 then none else some (x / y)⟩
+instance : Div XR := ⟨fun a b => a.bind fun x => b.bind fun y => if y == 0 then none else some (rnd (x / y))⟩
 
 def specialQ : Special XR where
-  ofRat := some
-  exp := fun t => t.bind expQ
-  log := fun t => t.bind logQ
-  rpow := fun a b => a.bind fun x => b.bind fun y => rpowQ x y
+  ofRat := fun q => some (rnd q)
+  exp := fun t => (t.bind expQ).map rnd
+  log := fun t => (t.bind logQ).map rnd
+  rpow := fun a b => (a.bind fun x => b.bind fun y => rpowQ x y).map rnd
   abs := fun t => t.map absR
-  s2pi := some s2piQ
+  s2pi := some (rnd s2piQ)
 
 /-- `erfinvWith` over `Rat` with π and the value of `log1p(-x·x)` supplied by the caller and `sqrtQ` for sqrt -/
 def erfinvRat (pi l x : Rat) : Rat :=
@@ -151,10 +169,18 @@ def tailDecision (g : Gen) (axis : List Rat) : Json :=
     | none => (false, 0)
     | some (x, _) =>
       let d := tailDelta g axis x
-      (robustAt x && robustAt (x - d) && robustAt (x + d), d)
+      -- the end points of `linspace` are exact, no sampled point lies outside them
+      let lo := axis.foldl min x
+      let hi := axis.foldl max x
+      (robustAt x && robustAt (max lo (x - d)) && robustAt (min hi (x + d)), d)
   let dsum : Option Rat := (allSome dens).map List.sum
+  -- how much an absolute error of one subnormal step in an intermediate product may be magnified by the factors
+  -- above 1 that are multiplied in afterwards (for the tolerance of the weight-by-weight comparison only)
+  let amp : Rat := facs.foldl (fun m f => match f with
+    | none => m
+    | some fs => max m (fs.foldl (fun p v => p * max 1 v) 1)) 1
   jObj [("robust", jBool robust), ("overflow", jBool overflow), ("delta", jRat delta),
-        ("dsum", jOpt jRat dsum), ("dmax", jOpt jRat (best.map Prod.snd)),
+        ("dsum", jOpt jRat dsum), ("amp", jRat amp), ("dmax", jOpt jRat (best.map Prod.snd)),
         ("best_x", jOpt jRat (best.map Prod.fst))]
 
 def handle (op : String) (req : Json) : R Json := do
@@ -173,11 +199,12 @@ def handle (op : String) (req : Json) : R Json := do
       match x with
       | c :: rest => if rest.all (· == c) && psf.sum == 1 then some c else none
       | [] => none
-    -- the modes handed straight to numpy (n ≥ m): full, valid, same (= full[(m-1)/2 ..][:n])
+    -- the modes handed straight to numpy: full, valid, same (= full[(min n m - 1)/2 ..][: max n m]; numpy swaps the
+    -- arguments when the kernel is the longer one)
     let full := fullConv x psf
     pure (jObj [("model", jRats out),
                 ("full", jRats full), ("valid", jRats (convValid x psf)),
-                ("same", jRats ((full.drop ((m - 1) / 2)).take (max n m))),
+                ("same", jRats ((full.drop ((min n m - 1) / 2)).take (max n m))),
                 ("entries", jRats (padConvSpec x psf)),
                 ("spec", jObj [("length", jNat n),
                                ("interior", jList (fun k => jList id [jNat k, jRat (fullConvAt x psf (k + shiftC))]) interior),
